@@ -5,7 +5,7 @@ import z3
 from .. import engine, envmodel
 from ..values import *  # noqa: F401,F403
 
-OPS = ['append', 'clean', 'dirty']
+OPS = ['append', 'clean', 'dirty', 'reopen']
 
 
 def run_persister_once(x):
@@ -44,6 +44,18 @@ def mk(docs, job, cfg):
             op = fixed[i] if fixed else OPS[x.choose(len(OPS), 'op%d' % i)]
             topic = 't'
             log.append(op)
+            if op == 'reopen':
+                # clean shutdown in the middle of the history (the persister of the old process is gone), fresh process
+                engine.drop_value(x, w)
+                envmodel.reset_process(x)
+                r2 = engine.open_walrus(x, 'StrictlyAtOnce', None, schedule='NoFsync')
+                w = r2.f[0]
+                for tpc, exp in expected.items():
+                    got = engine.api(x, w, 'topic_is_clean', [PStr(tpc)])
+                    if isinstance(got, bool) and got != exp:
+                        return dict(job=job, verdict='cex', kind='restart', ops=log, persister_ran=False,
+                                    detail='after %s (drop and reopen), topic_is_clean reports %s (expected %s)' % (log, got, exp))
+                continue
             if op == 'append':
                 engine.api(x, w, 'append_for_topic', [PStr(topic), engine.payload(i, bv64(5))])
                 expected[topic] = False
@@ -57,8 +69,15 @@ def mk(docs, job, cfg):
             if isinstance(got, bool) and got != expected[topic]:
                 return dict(job=job, verdict='cex', kind='in-memory', ops=log, detail='topic_is_clean reports %s right after %s' % (got, op))
         # the persister thread: the driver decides whether it gets to run before the instance is dropped
-        persister_ran = x.flip('persister_runs_before_drop') if not job.get('no_persister') else False
+        # persister schedules: never runs / completes a pass before the drop / has upgraded its weak reference (holds a
+        # strong one) when the instance is dropped and the process exits before it gets to write
+        sched = ['none', 'pass', 'holding'][x.choose(3, 'persister_schedule')] if not job.get('no_persister') else 'none'
+        persister_ran = sched == 'pass'
         threads = [t for t in x.threads]
+        if sched == 'holding':
+            tr = x.deref(w).f['topic_clean_tracker']
+            if isinstance(tr, Arc):
+                tr.strong += 1
         if persister_ran:
             x.persister_idle = 0
             for t in threads:
@@ -72,7 +91,7 @@ def mk(docs, job, cfg):
         for topic, exp in expected.items():
             got = engine.api(x, w2, 'topic_is_clean', [PStr(topic)])
             if isinstance(got, bool) and got != exp:
-                return dict(job=job, verdict='cex', kind='restart', ops=log, persister_ran=persister_ran,
-                            detail='after %s, drop and reopen, topic_is_clean reports %s (expected %s); persister ran before drop: %s' % (log, got, exp, persister_ran))
-        return dict(job=job, verdict='ok', ops=log, persister_ran=persister_ran)
+                return dict(job=job, verdict='cex', kind='restart', ops=log, persister_ran=persister_ran, persister_schedule=sched,
+                            detail='after %s, drop and reopen, topic_is_clean reports %s (expected %s); persister schedule: %s' % (log, got, exp, sched))
+        return dict(job=job, verdict='ok', ops=log, persister_ran=persister_ran, persister_schedule=sched)
     return x, driver
